@@ -277,6 +277,44 @@ theorem solLoop_lookup {rev : Mapping} {s : Sol} {d : Bool} {is : List Nat} {acc
       rw [solLoop_notin h (fun j' hj' e => hir ((hu j' (List.mem_cons_of_mem _ hj') e) ▸ hj'))]
       exact aget_aput_eq acc lj vj
 
+/-- the keys of the dict built by the comprehension are exactly the `reverse_mapping[i]` -/
+theorem solLoop_dom {rev : Mapping} {s : Sol} {d : Bool} {is : List Nat} {acc a : Assign} (l : Var)
+    (h : solLoop rev s d acc is = .ok a) :
+    (aget a l).isSome = true ↔ ((aget acc l).isSome = true ∨ ∃ i ∈ is, mapGet rev i = .ok l) := by
+  induction is generalizing acc with
+  | nil => simp [solLoop] at h; subst h; simp
+  | cons j r ih =>
+    simp only [solLoop, bind_ok_iff] at h
+    obtain ⟨lj, hlj, vj, _, h⟩ := h
+    rw [ih h]
+    by_cases e : l = lj
+    · subst e
+      simp only [aget_aput_eq, Option.isSome_some, true_or, true_iff]
+      exact Or.inr ⟨j, List.mem_cons_self, hlj⟩
+    · rw [aget_aput_ne acc vj e]
+      constructor
+      · rintro (h1 | ⟨i, hi, hil⟩)
+        · exact Or.inl h1
+        · exact Or.inr ⟨i, List.mem_cons_of_mem _ hi, hil⟩
+      · rintro (h1 | ⟨i, hi, hil⟩)
+        · exact Or.inl h1
+        · rcases List.mem_cons.mp hi with rfl | hi
+          · rw [hlj] at hil; injection hil with hil; exact absurd hil.symm e
+          · exact Or.inr ⟨i, hi, hil⟩
+
+theorem convertSolution_dom {spinModel : Bool} {rev : Mapping} {n : Nat} {s : Sol} {isDict flag : Bool}
+    {a : Assign} (hc : convertSolution spinModel rev n s isDict flag = .ok a) (l : Var) :
+    (aget a l).isSome = true ↔ ∃ i, i < n ∧ mapGet rev i = .ok l := by
+  have key : ∀ s', solLoop rev s' isDict [] (List.range n) = .ok a →
+      ((aget a l).isSome = true ↔ ∃ i, i < n ∧ mapGet rev i = .ok l) := by
+    intro s' hloop
+    rw [solLoop_dom l hloop]
+    simp [aget, List.mem_range]
+  unfold convertSolution at hc
+  cases spinModel <;> cases hsp : isSolutionSpin (s.map Prod.snd) flag <;>
+    simp only [hsp, Bool.false_eq_true, if_false, if_true, Bool.not_false, Bool.not_true, pure, Except.pure,
+      bind_ok_iff] at hc <;> obtain ⟨s', _, hloop⟩ := hc <;> exact key s' hloop
+
 theorem solMap_get {f : Rat → Except Err Rat} {s s' : Sol} (h : solMap f s = .ok s') {d : Bool} {i : Nat} {v' : Rat}
     (hg : solGet s' d i = .ok v') : ∃ v, solGet s d i = .ok v ∧ f v = .ok v' := by
   induction s generalizing s' with
